@@ -32,11 +32,11 @@ func nullNode(id enode.ID, i int) *enode.Node {
 }
 
 type lkRun struct {
-	mu       sync.Mutex
-	started  []int       // query starts not yet reported
-	inflight map[int]chan struct{}
+	mu        sync.Mutex
+	started   []int // query starts not yet reported
+	inflight  map[int]chan struct{}
 	everAsked map[int]int
-	maxIn    int
+	maxIn     int
 }
 
 func idxList(x []int) string {
@@ -195,12 +195,12 @@ func lookupRun(o *Out, r *rand.Rand, k int, thorough bool) {
 		cancelAt = r.Intn(7)
 	}
 	combined := r.Intn(2) == 0 // cancel together with a release (no quiescence in between)
-	between := r.Intn(2) == 0 // cancel in the window between a reply that found new nodes and the next startQueries
+	between := r.Intn(2) == 0  // cancel in the window between a reply that found new nodes and the next startQueries
 	synctest.Run(func() {
 		ctx, cancel := context.WithCancel(context.Background())
 		defer cancel()
 		lk := portalwire.VerifNewLookup(ctx, tab, target, q)
-		adv := make(chan bool)      // result of each advance() call
+		adv := make(chan bool)        // result of each advance() call
 		resume := make(chan struct{}) // permission to call advance() again
 		go func() {
 			for {
@@ -323,8 +323,8 @@ func lookupRun(o *Out, r *rand.Rand, k int, thorough bool) {
 
 type lkTransport struct{ self *enode.Node }
 
-func (t *lkTransport) Self() *enode.Node                            { return t.self }
+func (t *lkTransport) Self() *enode.Node                           { return t.self }
 func (t *lkTransport) RequestENR(*enode.Node) (*enode.Node, error) { return nil, errors.New("no") }
-func (t *lkTransport) LookupRandom() []*enode.Node                  { return nil }
-func (t *lkTransport) LookupSelf() []*enode.Node                    { return nil }
-func (t *lkTransport) Ping(*enode.Node) (uint64, error)             { return 0, errors.New("no") }
+func (t *lkTransport) LookupRandom() []*enode.Node                 { return nil }
+func (t *lkTransport) LookupSelf() []*enode.Node                   { return nil }
+func (t *lkTransport) Ping(*enode.Node) (uint64, error)            { return 0, errors.New("no") }
